@@ -735,6 +735,108 @@ def wr6(p, res):
     return n
 
 
+# ------------------------------------------------------------------ NRM-1
+def nrm1(p, res, rule="NRM-1"):
+    """carry chains of the shift / normalisation shape functions: the final step consumes the carry - on no feasible path (two traversals per
+    loop, first / last iteration tests on the loop variable respected) is the same carry buffer handed to another middle or final step afterwards"""
+    from . import sc
+    n = 0
+    for f in sorted(p.lib_fns(), key=lambda x: x.uid):
+        if f.kind == "Closure" or not f.uid.startswith(("poulpy_cpu_ref::reference::vec_znx", "poulpy_cpu_ref::reference::fft64::vec_znx_big", "poulpy_cpu_ref::reference::ntt120::vec_znx_big")):
+            continue
+        flow = Flow(f, transparent=("split_at_mut", "index_mut", "deref_mut", "as_mut"))
+        events = {}
+        for bi, t in f.calls():
+            cn = (f.callee_def(t) or {}).get("n", "")
+            if cn.startswith("znx_normalize_") and t["a"]:
+                rr = flow.op_roots(t["a"][-1])
+                key = tuple(sorted(r[:2] + (r[2],) if r[0] == "param" else r[:3] for r in rr if r[0] in ("param", "call")))
+                if key:
+                    kind = "first" if "first_step" in cn else ("final" if "final_step" in cn else "middle")
+                    events[bi] = (key, kind, cn, t["l"])
+        if not any(e[1] == "final" for e in events.values()):
+            continue
+        n += 1
+        g = CFG(f)
+        paths = sc.returning_paths(f, g, cap=20000, unroll=2, dowhile=True)
+        if not paths:
+            res.undec(rule, "%s: too many paths" % f.pretty)
+            continue
+        plain = Flow(f)
+        sym = Sym(f, plain)
+        info = {}
+        for L in g.loops():
+            for b in sorted(L["body"]):
+                t = f.blocks[b]["t"]
+                if t and t["k"] == "Call" and (f.callee_def(t) or {}).get("n") == "next" and g.innermost_loop(b) is L:
+                    rb = _range_bounds(f, plain, sym, t)
+                    if rb:
+                        lo, hi, rev = rb
+                        first = (hi - Poly.const(1)) if rev else lo
+                        last = lo if rev else (hi - Poly.const(1))
+                        info[L["header"]] = (L, Poly.atom(("call", f.uid, b, ("0",))).key(), first.key(), last.key())
+                    break
+
+        def feasible(path):
+            for h, (L, var, first, last) in info.items():
+                occ = [i for i, b in enumerate(path) if b == h]
+                for k, start in enumerate(occ):
+                    i = start
+                    while i + 1 < len(path) and path[i] in L["body"] and (k + 1 >= len(occ) or i < occ[k + 1]):
+                        b = path[i]
+                        t = f.blocks[b]["t"]
+                        if t and t["k"] == "Switch" and len(t["ts"]) == 1:
+                            for r in plain.op_roots(t["o"]):
+                                if r[0] != "bin":
+                                    continue
+                                st = f.blocks[r[1]]["s"][r[2]][2]
+                                if st["op"] not in ("Eq", "Ne"):
+                                    continue
+                                a, c = sym.operand(st["o"][0]).key(), sym.operand(st["o"][1]).key()
+                                if var not in (a, c):
+                                    continue
+                                other = c if a == var else a
+                                truth = path[i + 1] != t["ts"][0][1]
+                                equal = truth if st["op"] == "Eq" else (not truth)
+                                if other == first and first != last:
+                                    if equal != (k == 0):
+                                        return False
+                                if other == last and first != last:
+                                    if equal and k != len(occ) - 1:
+                                        return False
+                                if other == first and first == last and not equal:
+                                    return False
+                        i += 1
+                        if i < len(path) and path[i] == h and i != start:
+                            break
+            return True
+
+        hit = None
+        for path in paths:
+            dead = {}
+            local_hit = None
+            for b in path:
+                if b in events:
+                    key, kind, cn, line = events[b]
+                    if dead.get(key):
+                        local_hit = (dead[key], cn, line)
+                        break
+                    if kind == "final":
+                        dead[key] = cn
+                    elif kind == "first":
+                        dead[key] = None
+            if local_hit and feasible(path):
+                hit = local_hit
+                break
+        if hit:
+            res.bad(rule, f.pretty, "carry-used-after-final-step:%s" % hit[1],
+                    "%s hands the carry to `%s` after `%s` has already consumed it on the same path: the final step must be the last link of a carry chain (its sibling forms apply it on the last iteration)"
+                    % (f.pretty, hit[1], hit[0]), site=f.where(hit[2]))
+        else:
+            res.ok(rule, {"fn": f.pretty, "paths": len(paths), "final_steps": sum(1 for e in events.values() if e[1] == "final")})
+    return n
+
+
 def run(res, tier):
     res.level = "other"
     res.explanation = ("Shape-level clauses of C11 on MIR of every HAL shape function of the reference and AVX crates (functions with an (X, X_col) operand pair): for overwrite-type "
